@@ -157,7 +157,10 @@ def judge(dist, fwd, inv, rt, add, tag, keys, xs, cond, counters, support=None, 
             if inv:
                 tr += 1
                 counters["nontrivial"] = counters.get("nontrivial", 0) + int(abs(float(o["ld"])) > 1e-3)
-                if total and not np.all(np.isfinite(o["z"])) and np.all(np.abs(np.asarray(x)) <= 1e3):
+                zf = np.asarray(o["z"], float)
+                # only a NaN next to moderate values: an inverse image that overflows (+-inf, or entries beyond 1e6 on the way there) is a
+                # legitimately remote preimage of a strongly contracting map, not a missing one
+                if total and np.isnan(zf).any() and not np.isinf(zf).any() and np.all(np.abs(zf[np.isfinite(zf)]) <= 1e6) and np.all(np.abs(np.asarray(x)) <= 1e3):
                     # the codomain is all of R^n (grammar type system): every moderate x HAS an inverse image; a NaN there makes log_prob
                     # -inf at a point where the density is positive (both sides of the comparison below would agree on that -inf)
                     add(f"{tag}|no-inverse-image", f"{tag}: the bijection's inverse at x = {np.asarray(x).tolist()} is {o['z'].tolist()}, so log_prob(x) = {float(o['lp_x'])!r} "
